@@ -383,11 +383,15 @@ class Pair:
         if nefc != len(e["pos"]):
             self.orc.fail("c43:efc:count", "C has %d constraint rows, MJX has %d active rows" % (nefc, len(e["pos"])), dict(replay))
             return
-        for f, name in (("efc_pos", "pos"), ("efc_aref", "aref"), ("efc_D", "D"), ("efc_force", "force")):
-            c = self.cnum(f)
+        # efc_pos is compared as (efc_pos - efc_margin), the quantity that enters aref: for the friction rows of an elliptic
+        # contact with a margin the C engine stores pos = margin = 0, MJX stores pos = margin = the contact margin
+        cpm = [a - b for a, b in zip(self.cnum("efc_pos") or [], self.cnum("efc_margin") or [])]
+        mpm = [a - b for a, b in zip(e["pos"], e["margin"])]
+        for f, name in (("efc_pos-efc_margin", "pos"), ("efc_aref", "aref"), ("efc_D", "D"), ("efc_force", "force")):
+            c = cpm if name == "pos" else self.cnum(f)
             if not c:
                 continue
-            c, m = sorted(c), sorted(e[name])
+            c, m = sorted(c), sorted(mpm if name == "pos" else e[name])
             d = reldev(c, m)
             self.dev["efc:" + name] = max(self.dev.get("efc:" + name, 0.0), d)
             if not d <= TOL_CONTACT:
